@@ -19,7 +19,13 @@ type Behaviour struct {
 	Delay  time.Duration
 	Func   func(req []byte) (int, []byte) // Kind=func: body from request (OCSP)
 	CType  string
-	Repeat int // informational
+	Repeat int    // informational
+	After  func() // Kind=partial-then: called after the first half of Body was sent and flushed
+}
+
+// PartialThen sends the first half of body, calls after, then keeps the connection open for hold.
+func PartialThen(body []byte, after func(), hold time.Duration) Behaviour {
+	return Behaviour{Kind: "partial-then", Body: body, After: after, Delay: hold}
 }
 
 func Good(body []byte) Behaviour { return Behaviour{Kind: "good", Body: body} }
@@ -174,6 +180,17 @@ func (o *Origin) serve(w http.ResponseWriter, r *http.Request) {
 		} else {
 			_, _ = w.Write(body)
 		}
+	case "partial-then":
+		// first half of the body, flushed; then the callback (e.g. the parent kills the client); then hang
+		w.WriteHeader(200)
+		_, _ = w.Write(b.Body[:len(b.Body)/2])
+		if f, ok := w.(http.Flusher); ok {
+			f.Flush()
+		}
+		if b.After != nil {
+			b.After()
+		}
+		time.Sleep(b.Delay)
 	case "hang":
 		time.Sleep(b.Delay)
 	default:
